@@ -595,6 +595,16 @@ pub fn check_main(check: &'static dyn Check, tier: Tier) -> i32 {
         println!("VIOLATION property={} replay={}", id, path);
         println!("  sig={} cases={} what={}", sig, recs.len(), super::sink::truncate(&rec.2.what, 200));
     }
+    if let Ok(pat) = std::env::var("XMC_SHOW") {
+        let mut shown = 0;
+        for (sig, recs) in unknown.iter() {
+            if sig.contains(&pat) && shown < 3 {
+                shown += 1;
+                let rec = recs.iter().min_by_key(|r| (r.2.case.len(), r.1)).unwrap();
+                eprintln!("=== {} ({} cases)\n--- case\n{}\n--- expected\n{}\n--- observed\n{}\n", sig, recs.len(), rec.2.case, rec.2.expected, rec.2.observed);
+            }
+        }
+    }
     if std::env::var("XMC_SUMMARY").is_ok() {
         for (sig, recs) in unknown.iter() {
             let rec = recs.iter().min_by_key(|r| (r.2.case.len(), r.1)).unwrap();
